@@ -10,6 +10,7 @@ import collections
 import os
 import re
 from vlib import COQ, Hit, Result, diff_lines, sh
+import json
 from props.stress_twin import run_twin, twin_replay
 
 ASSUMPTIONS = [
@@ -377,6 +378,36 @@ def run_backends(ctx, r, h, seed, n):
         r.hits.append(Hit('tie', 'C17:fifo_harness', 'back-end harness produced no cases: %s' % out[-300:], {'harness': 'c17_fifo', 'args': args}))
 
 
+def run_recycle(ctx, r, h_rc, configs):
+    """harness/c17_recycle.cpp: >= 2 OS threads on ONE deque / back-end with a hot node free list (bursts of pushes at
+    drawn ends followed by as many pops at drawn ends), unique values, final drain.  Model-independent monitors:
+    duplicate / invented at every pop, lost after the drain, crash (signal), hang (no round completed for 30 s)."""
+    nbad = 0
+    for (sd, nth, per) in configs:
+        args = [str(sd), str(nth), str(per)]
+        rc, out = sh([h_rc] + args, timeout=600 + per * nth // 2000)
+        lines = out.split('\n')
+        if rc != 0 or 'DONE RC' not in lines:
+            r.hits.append(Hit('tie', 'C17:recycle_harness', 'c17_recycle %s failed rc=%d: %s' % (' '.join(args), rc, out[-500:]),
+                              {'harness': 'c17_recycle', 'args': args}))
+        for l in lines:
+            q = l.split(' ')
+            if l.startswith('OUT RC '):
+                r.evaluations += 1
+                r.count('recycle[%s]=values' % q[2], nth * per)
+                r.nontrivial('recycle %s: %d OS threads on one container, every push re-uses a node freed by a concurrent pop' % (q[2], nth))
+                r.sample({'recycle': l, 'args': args}, cap=8)
+            elif l.startswith('BAD RC '):
+                r.evaluations += 1
+                nbad += 1
+                sig = q[3].split('=', 1)[1]
+                r.hits.append(Hit('monitor', 'C17:recycle:%s:%s' % (q[2], sig),
+                                  'lock-free deque with node recycling under contention (%d OS threads, %d unique values each, back-end %s): %s'
+                                  % (nth, per, q[2], ' '.join(q[4:])[:600]),
+                                  {'harness': 'c17_recycle', 'args': args + [q[2]], 'observed': l[:600]}))
+    return nbad
+
+
 def replay(ctx, r, drv, h_iq, h_dq, h_ff):
     """re-run the case stored in a replay file (deque cases individually, other harnesses as a whole)"""
     import json
@@ -455,14 +486,26 @@ def run(ctx):
               'allocate first and wait for nobody, so no node freed in a trial is ever allocated again; monitors: multiset '
               'pushed = popped + drained (duplicate / lost / foreign), allocation count. Forked child, crash/hang = hit; 4 + 3 + 3 s '
               'time boxes quick, 30 s each thorough. They exist because lock-step cannot schedule inside an atomic step that a '
-              'code change split in two (e.g. the range / anchor CAS replaced by load, compare, store).')
+              'code change split in two (e.g. the range / anchor CAS replaced by load, compare, store). '
+              'RECYCLE (harness/c17_recycle.cpp): 6 OS threads (thorough 2..8) on ONE container — lockfree_lifo / abp_fifo / abp_lifo '
+              'back-ends and the raw deque — each pushes 150000 (thorough 600000) unique values in bursts of 1..4 (now and then 5..12) at '
+              'drawn ends followed by as many pops at drawn ends, so the deque stays short and every push re-uses a node freed '
+              'microseconds earlier by some thread (node pool = caching_freelist under contention), final drain; monitors: duplicate / '
+              'invented at every pop, lost after the drain, crash (signal), hang (no round completed for 30 s); one forked child per back-end.')
     ctx.build_pika()
     drv = ctx.build_model('C17', 'ExtractC17.v', 'drv_c17.ml')
     h_iq = ctx.build_harness('c17_iq', 'c17_iq.cpp')
     h_dq = ctx.build_harness('c17_deque', 'c17_deque.cpp', extra=['-mcx16'])
     h_ff = ctx.build_harness('c17_fifo', 'c17_fifo.cpp', extra=['-mcx16'])
     h_st = ctx.build_harness('c17_stress', 'c17_stress.cpp', extra=['-mcx16'])
+    h_rc = ctx.build_harness('c17_recycle', 'c17_recycle.cpp', extra=['-mcx16'])
     quick = ctx.tier == 'quick'
+    if twin_replay(ctx, 'c17_recycle'):
+        # stored args: seed, threads, values per thread, back-end; the interleaving is not controlled (real threads)
+        a = [str(x) for x in json.load(open(ctx.replay))['replay']['args']]
+        r.rule = 'replay of %s' % ctx.replay
+        run_recycle(ctx, r, h_rc, [(int(a[0]), int(a[1]), int(a[2]))])
+        return r
     if twin_replay(ctx, 'c17_stress'):
         run_twin(ctx, r, 'C17', h_st, 'c17_stress', 'IQS', ['iq'], 100000000, 5000, 'contiguous_index_queue', sig_prefix='C17:stress')
         run_twin(ctx, r, 'C17', h_st, 'c17_stress', 'DQS', ['dq'], 100000000, 5000, 'lock-free deque (phases without node reuse)', sig_prefix='C17:stress')
@@ -587,7 +630,7 @@ def run(ctx):
     # ---------------- free-running stress twins (real concurrency, monitors only)
     r.notes.append('deque stress twins never reuse a node within a trial (fresh deque per trial; dq: push-only and pop-only phases; mx: '
                    'frees are held back by a hook until every push has allocated), so the known finding C17:deque:aba_link_tag_reset '
-                   '(F15) cannot fire; races that need a recycled node are covered by lock-step and the model only')
+                   '(F15, repaired since) cannot fire; races that need a recycled node: lock-step, the model, and the RECYCLE scenario below')
     run_twin(ctx, r, 'C17', h_st, 'c17_stress', 'IQS', ['iq'], 100000000, 4000 if quick else 30000,
              'contiguous_index_queue', min_trials=50000, sig_prefix='C17:stress')
     run_twin(ctx, r, 'C17', h_st, 'c17_stress', 'DQS', ['dq'], 100000000, 3000 if quick else 30000,
@@ -595,4 +638,11 @@ def run(ctx):
     run_twin(ctx, r, 'C17', h_st, 'c17_stress', 'DQM', ['mx'], 100000000, 3000 if quick else 30000,
              'lock-free deque (pushes racing pops; frees held back until every node is allocated, no node reuse)',
              min_trials=20000, sig_prefix='C17:stress')
+
+    # ---------------- node recycling under contention (hot free list; all back-ends and the raw deque)
+    if quick:
+        cfgs = [(ctx.seed, 6, 150000)]
+    else:
+        cfgs = [(ctx.seed + k, nth, 600000) for k, nth in enumerate((6, 4, 8, 2, 6))]
+    run_recycle(ctx, r, h_rc, cfgs)
     return r
